@@ -3,6 +3,7 @@ package rules
 import (
 	"fmt"
 	"go/token"
+	"strings"
 
 	"golang.org/x/tools/go/ssa"
 
@@ -104,8 +105,76 @@ func c07_19(c *core.Ctx, p *core.Prog) {
 		})
 	}
 	c.Stats["C07.19 tested (value, error) calls on the decode path"] = n
+	// second clause: an error variable is not handed back (as it is or wrapped) on the side of its own nil test where
+	// it is nil — `if err == nil { return werror.Wrap(err) }` returns success from the middle of a decode loop
+	n2 := 0
+	seenOrigin = map[*ssa.Function]bool{}
+	for _, fn := range sortedFuncs(p, reach) {
+		if (fn.Synthetic != "" && fn.Origin() == nil) || !core.InRepo(core.FnPkgPath(fn)) {
+			continue
+		}
+		if o := fn.Origin(); o != nil {
+			if seenOrigin[o] {
+				continue
+			}
+			seenOrigin[o] = true
+		}
+		fn := fn
+		k := 0
+		for _, b := range fn.Blocks {
+			iff := core.IfOf(b)
+			if iff == nil {
+				continue
+			}
+			cmp, ok := iff.Cond.(*ssa.BinOp)
+			if !ok || (cmp.Op != token.NEQ && cmp.Op != token.EQL) || !isErr(cmp.X.Type()) || !core.IsNilConst(cmp.Y) {
+				continue
+			}
+			if _, isCall := cmp.X.(*ssa.Call); !isCall {
+				if _, isEx := cmp.X.(*ssa.Extract); !isEx {
+					continue // a φ or a loaded cell: which value is tested depends on the path
+				}
+			}
+			k++
+			n2++
+			nilSucc, nonNilSucc := b.Succs[1], b.Succs[0]
+			if cmp.Op == token.EQL {
+				nilSucc, nonNilSucc = b.Succs[0], b.Succs[1]
+			}
+			// hands back the tested error: `return …, err` or `return …, werror.Wrap(err)` as the block's terminator
+			handsBack := func(blk *ssa.BasicBlock) *ssa.Return {
+				r, ok := blk.Instrs[len(blk.Instrs)-1].(*ssa.Return)
+				if !ok || len(r.Results) == 0 {
+					return nil
+				}
+				last := core.ResultValue(r, len(r.Results)-1)
+				if !isErr(last.Type()) {
+					return nil
+				}
+				v := last
+				if cl, ok := v.(*ssa.Call); ok {
+					if f := core.CalleeObj(cl); f != nil && f.Pkg() != nil && strings.HasSuffix(f.Pkg().Path(), "/werror") && len(cl.Call.Args) > 0 {
+						v = cl.Call.Args[0]
+					}
+				}
+				if v == cmp.X {
+					return r
+				}
+				return nil
+			}
+			// the idiom `x, err := f(); if err != nil { return wrap(err) }; return x, err` hands the nil error back at the end:
+			// only a nil side that returns the error while the non-nil side carries on is the wrong way round
+			bad := ""
+			if r := handsBack(nilSucc); r != nil && len(nilSucc.Preds) == 1 && handsBack(nonNilSucc) == nil {
+				bad = p.Pos(r.Pos())
+			}
+			c.Check(bad == "", fmt.Sprintf("fn=%s|errtest#%d", core.FuncName(fn), k), p.Pos(cmp.Pos()), core.FuncName(fn), "the tested error is handed back on its non-nil side only",
+				"the return at "+bad+" hands back the error tested at "+p.Pos(cmp.Pos())+" on the side where it is nil (the test is the wrong way round): the function reports success from the middle of its work — the rows decoded so far are returned as the whole batch — and carries on when the call failed")
+		}
+	}
+	c.Stats["C07.19 error tests on the decode path"] = n2
 }
 
 func init() {
-	register("C07", &core.Rule{ID: "C07.19", Title: "a value obtained together with an error is used only where that error was found nil", Mod: core.ModRoot, Floor: 190, Run: c07_19})
+	register("C07", &core.Rule{ID: "C07.19", Title: "a value obtained together with an error is used only where that error was found nil", Mod: core.ModRoot, Floor: 400, Run: c07_19})
 }
